@@ -177,12 +177,13 @@ def api_run(home, model, kernel):
         shutil.rmtree(d, ignore_errors=True)
 
 
-def api_reference(arch, variant, kernel):
-    key = ("api", arch, variant, kernel)
+def api_reference(arch, variant, kernel, isav="A"):
+    key = ("api", arch, variant, kernel, isav)
     if key not in _REF:
         sb = Sandbox()
         try:
             sb.set_user("ref.yml", arch, variant)
+            sb.set_isa_variant(env.isa_of(arch), isav)
             rc, out, err = api_run(sb.home, os.path.join(sb.user, "ref.yml"), kernel)
             if rc != 0:
                 raise core.HarnessError("cold API reference run failed: " + err[-500:])
@@ -480,7 +481,9 @@ class Interp:
                 return  # the entry was cut or overwritten by an earlier step of this history: nothing to re-version
             if not isinstance(data, dict) or "internal_version" not in data:
                 return
-            data["internal_version"] = data["internal_version"] + step["delta"]
+            # always relative to the format version of the code under test (a history may re-version an entry twice)
+            from osaca.semantics import MachineModel
+            data["internal_version"] = MachineModel.INTERNAL_VERSION + step["delta"]
             for form in data.get("instruction_forms", []):
                 try:
                     if form.latency:
@@ -544,7 +547,7 @@ class Interp:
             if rc != 0 or err.strip():
                 raise Violation("run-fails:" + tag, "analysis with the model file %s given by path fails" % name,
                                 (err or out)[-600:], "exit 0, empty stderr")
-            ref = api_reference(arch, variant, kernel)
+            ref = api_reference(arch, variant, kernel, sb.isavariant[env.isa_of(arch)])
             if report.normalise(out) != ref:
                 gl, rl = report.normalise(out).split("\n"), ref.split("\n")
                 raise Violation("report-differs:" + tag, "report for model file %s (content: %s variant %s; other "
